@@ -25,6 +25,9 @@ Accept(e) ==
     [] e.op = "write_fault" -> e.outcome = WriteOutcome(e.len, e.fault) /\ e.nwritten <= e.fault
     [] e.op = "header_slice" -> e.outcome = SliceOutcome(e.len, e.len, FALSE)        \* ForeignHeaderRejected
     [] e.op = "header_read" -> e.outcome = ReadOutcome(e.len, e.len, NoFault, FALSE)
+    [] e.op = "big" ->                                   \* a large well-formed model (digests): both readers, exact consumption
+         /\ e.read_outcome = ReadOutcome(e.len, e.len, NoFault, TRUE) /\ e.consumed = e.len /\ e.reader_same
+         /\ e.slice_outcome = SliceOutcome(e.len, e.len, TRUE) /\ e.slice_same /\ e.rest_len = 0
     [] OTHER -> FALSE
 Check == l <= Len(Rec) => (Accept(Rec[l]) \/ PrintT(<<"REJECT", ToJson([l |-> l, id |-> Rec[l].id])>>))
 =============================================================================
